@@ -452,8 +452,9 @@ struct Report {
     ev.kv("property_id", ctx.prop).kv("tier", ctx.tier).kv("seed", ctx.seed).kv("level", "model_checking");
     ev.raw("coverage", cov.str()).raw("assumptions", jarrs(assumptions)).kv("wall_s", wall).kv("violations", (int64_t)unknown);
     ev.kv("build_s", getenv("VERIF_BUILD_S") ? atof(getenv("VERIF_BUILD_S")) : 0.0);
-    mkdir((ctx.verif + "/evidence").c_str(), 0755);
-    spit(ctx.verif + "/evidence/" + ctx.prop + ".json", ev.str() + "\n");
+    std::string evdir = getenv("HEXMC_EVIDENCE_DIR") ? getenv("HEXMC_EVIDENCE_DIR") : ctx.verif + "/evidence";
+    mkdir(evdir.c_str(), 0755);
+    spit(evdir + "/" + ctx.prop + ".json", ev.str() + "\n");
     for (auto &l : lines) printf("%s\n", l.c_str());
     printf("[%s] tier=%s evaluations=%llu states=%llu transitions=%llu nontrivial=%llu exhaustive=%s wall=%.1fs violations=%d\n", ctx.prop.c_str(),
            ctx.tier.c_str(), (unsigned long long)evaluations, (unsigned long long)states, (unsigned long long)transitions,
